@@ -83,6 +83,7 @@ type Graph struct {
 	DigestTags map[string]*Node // "sha256-<hex>.suffix" -> manifest
 	Shape      string
 	Alg        string
+	Loop       bool // a referrer lists its own subject as a child
 }
 
 type G struct {
@@ -273,6 +274,23 @@ func (g *G) Artifact(subject *Node, artType string) *Node {
 	return n
 }
 
+// ReferrerIndex generates an OCI index that is itself a referrer: it names subject and lists children, which may
+// include the subject itself (the "loop" shape of regclient's own test data: an index whose subject is one of its entries).
+func (g *G) ReferrerIndex(subject *Node, children []*Node, artType string) *Node {
+	n := &Node{Kind: "index", MediaType: MTOCIIndex, Children: children, ArtType: artType, Subject: subject.Digest}
+	var ds []Desc
+	for _, c := range children {
+		ds = append(ds, Desc{MediaType: c.MediaType, Digest: c.Digest, Size: len(c.Raw)})
+	}
+	g.n++
+	n.Annot = map[string]string{"org.example.serial": fmt.Sprint(g.n)}
+	fields := []kv{{"schemaVersion", 2}, {"mediaType", n.MediaType}, {"artifactType", artType}, {"manifests", ds},
+		{"subject", Desc{MediaType: subject.MediaType, Digest: subject.Digest, Size: len(subject.Raw)}}, {"annotations", n.Annot}}
+	n.Raw = g.marshal(fields)
+	n.Digest = regmodel.Digest(g.Alg, n.Raw)
+	return n
+}
+
 // Schema1 generates an unsigned Docker schema1 manifest (no config object; layers as fsLayers).
 func (g *G) Schema1() *Node {
 	n := &Node{Kind: "schema1", MediaType: MTDockerSchema1}
@@ -376,6 +394,7 @@ type Opts struct {
 	NoExternal   bool
 	NoBlobKids   bool
 	NoLegacy     bool // no schema1 and no OCI artifact manifests
+	Loops        bool // referrers that are indexes over their own subject
 }
 
 // Graph generates an image graph with optional referrers and digest-tags.
@@ -433,6 +452,15 @@ func (g *G) Graph(o Opts) *Graph {
 			gr.Referrers = append(gr.Referrers, a)
 			if g.c(4, "refofref") == 1 {
 				gr.Referrers = append(gr.Referrers, g.Artifact(a, types[g.c(len(types), "atype")]))
+			}
+		}
+		// a referrer that is an index over its own subject and one more image: copying it meets its subject
+		// again while the subject's copy is still in progress
+		if o.Loops && g.c(4, "loopref") == 1 {
+			subj := targets[g.c(len(targets), "subj")]
+			if subj.Kind != "schema1" && subj.MediaType != MTOCIArtifact {
+				gr.Referrers = append(gr.Referrers, g.ReferrerIndex(subj, []*Node{subj, g.Image(false)}, types[g.c(len(types), "atype")]))
+				gr.Loop = true
 			}
 		}
 	}
